@@ -76,7 +76,7 @@ func VH_C02_resync() {
 		return nil
 	}
 
-	mutation := v.Choose("mutation", 9)
+	mutation := v.Choose("mutation", 14)
 	changed := map[string]bool{}
 	switch mutation {
 	case 0: // unchanged
@@ -116,6 +116,29 @@ func VH_C02_resync() {
 		m.MkFile(src+"/d/f", dataOf("d/f"), 0644, 1, 1, mtimeChoices[0])
 		m.SetMtime(src+"/d", mtimeChoices[1])
 		changed["d"] = true
+	case 9: // touch of a symlink
+		os.Remove(src + "/l")
+		m.MkSymlink(src+"/l", "e", 1, 1, mtimeChoices[1])
+		changed["l"] = true
+	case 10: // symlink retargeted (same length)
+		os.Remove(src + "/l")
+		m.MkSymlink(src+"/l", "d", 1, 1, mtimeChoices[0])
+		changed["l"] = true
+	case 11: // nested file rewritten, same size, new mtime
+		os.Remove(src + "/d/f")
+		m.MkFile(src+"/d/f", v.Bytes("f2", 1), 0644, 1, 1, mtimeChoices[1])
+		m.SetMtime(src+"/d", mtimeChoices[1])
+		changed["d/f"] = true
+	case 12: // a new file appears
+		m.MkFile(src+"/zz", v.Bytes("zz", 1), 0644, 1, 1, mtimeChoices[0])
+		changed["zz"] = true
+	case 13: // chgrp (symbolic new gid) of the nested file
+		ng := v.U32("newgid")
+		v.Assume(ng != 1)
+		os.Remove(src + "/d/f")
+		m.MkFile(src+"/d/f", dataOf("d/f"), 0644, 1, ng, mtimeChoices[0])
+		m.SetMtime(src+"/d", mtimeChoices[1])
+		changed["d/f"] = true
 	}
 	differ := DiffMetadata
 	if v.Param("NONE", 0) != 0 {
@@ -161,4 +184,15 @@ func VH_C02_resync() {
 		}
 	}
 	v.Assert(len(after) == len(srcSnap), "after the second transfer the destination has the paths of the source")
+	for i := range srcSnap {
+		if i >= len(after) {
+			break
+		}
+		a, b := &after[i], &srcSnap[i]
+		same := v.And(a.Path == b.Path, a.Kind == b.Kind, a.Perm == b.Perm, a.Uid == b.Uid, a.Gid == b.Gid, string(a.Data) == string(b.Data), a.Target == b.Target)
+		if b.Kind != m.KDir {
+			same = v.And(same, a.Mtime == b.Mtime)
+		}
+		v.Assert(same, "after the second transfer every destination entry equals its source entry (a changed identity is always re-transferred)")
+	}
 }
